@@ -22,7 +22,10 @@ for sid in seeds:
         t0 = time.time()
         r = subprocess.run([os.path.join(ROOT, "tools", "mutant.py"), patch, c], capture_output=True, text=True)
         first = [l.strip() for l in r.stdout.splitlines() if l.strip().startswith("key=")]
-        verdict = "CAUGHT" if "CAUGHT" in r.stdout else ("INCONCLUSIVE" if "exit=2" in r.stdout else "MISSED")
+        if "patch failed" in (r.stderr + r.stdout) or "Traceback" in r.stderr:
+            verdict = "ERROR(patch does not apply / tool error)"
+        else:
+            verdict = "CAUGHT" if "CAUGHT" in r.stdout else ("INCONCLUSIVE" if "exit=2" in r.stdout else "MISSED")
         matrix.setdefault(sid, {})[c] = {"verdict": verdict, "first_key": first[0][:200] if first else None, "wall_s": round(time.time() - t0)}
         print(sid, c, verdict, (first[0][:120] if first else ""), flush=True)
         json.dump(matrix, open(mpath, "w"), indent=1)
